@@ -229,6 +229,20 @@ pub fn run(run: &Run) {
         }
     });
     run.bound("smooth catalogue", "20 analytic integrands × both orientations × 67 panel counts × 3 tolerances");
+    // iterated integrals: the integrand of one rule calls another rule (or the same one)
+    {
+        run.case();
+        run.nontrivial(1);
+        // inner: int_0^x 3t^2 dt = x^3 (exact for every rule); outer: int_0^2 x^3 dx = 4
+        judge(run, "romberg/nested", guard(|| romberg(|x| romberg(|t| 3.0 * t * t, 0.0, x, 0.0, 3), 0.0, 2.0, 0.0, 4)), 4.0, 64.0 * U * 4.0, &|| "romberg(x -> romberg(3t^2, 0, x, 0, 3), 0, 2, 0, 4)".to_string());
+        judge(run, "romberg/nested", guard(|| romberg(|x| romberg(|t| 3.0 * t * t, 0.0, x, 0.0, 6), -1.0, 3.0, 0.0, 7)), 20.0, 256.0 * U * 20.0, &|| "romberg(x -> romberg(3t^2, 0, x, 0, 6), -1, 3, 0, 7)".to_string());
+        judge(run, "romberg/nested", guard(|| romberg(|x| quad5(|t| 3.0 * t * t, 0.0, x), 0.0, 2.0, 0.0, 4)), 4.0, 64.0 * U * 4.0, &|| "romberg(x -> quad5(3t^2, 0, x), 0, 2, 0, 4)".to_string());
+        judge(run, "quad5/nested", guard(|| quad5(|x| romberg(|t| 3.0 * t * t, 0.0, x, 0.0, 3), 0.0, 2.0)), 4.0, 64.0 * U * 4.0, &|| "quad5(x -> romberg(3t^2, 0, x, 0, 3), 0, 2)".to_string());
+        judge(run, "trapz/nested", guard(|| trapz(|x| trapz(|t| 2.0 * t + 1.0, 0.0, x, 3), 0.0, 2.0, 1)), 6.0, 64.0 * U * 6.0, &|| "trapz(x -> trapz(2t+1, 0, x, 3), 0, 2, 1) (trapezoid of x^2+x on one panel: 6)".to_string());
+        // double integral of e^(x+y) over 0 <= y <= x <= 1: (e-1)^2 / 2
+        let want = (std::f64::consts::E - 1.0).powi(2) / 2.0;
+        judge(run, "romberg/nested", guard(|| romberg(|x| romberg(move |y| (x + y).exp(), 0.0, x, 1e-10, 9), 0.0, 1.0, 1e-10, 9)), want, 1e-8, &|| "romberg of romberg of e^(x+y) over the triangle".to_string());
+    }
     // smooth integrands that converge only in the last levels of a 17..20-level budget (w·(b−a) ≈ 10⁴ rad)
     {
         let cases: Vec<(f64, f64, f64, f64)> = vec![(20.0, -1000.0, 1000.0, 1e-9), (10.0, -1000.0, 1000.0, 1e-9), (40.0, -1000.0, 1000.0, 1e-6), (25.0, -137.5, 864.25, 1e-9), (20.0, 1000.0, -1000.0, 1e-9), (7.0, 0.0, 3000.0, 1e-8)];
